@@ -658,7 +658,7 @@ pub fn cmd_run(args: &[String]) -> i32 {
             "distinct_abstract_states": states.len(),
             "runs_per_hour": if wall_s > 0.0 { (total_runs as f64 / wall_s * 3600.0) as u64 } else { 0 },
             "seeds_per_hour": if wall_s > 0.0 { (total_runs as f64 / wall_s * 3600.0) as u64 } else { 0 },
-            "simulated_time_s": (virt_ns / 1_000_000) as f64 / 1000.0 + counters.get("tokio_virtual_ms").copied().unwrap_or(0) as f64 / 1000.0,
+            "simulated_time_s": ((virt_ns / 1_000_000) as f64 / 1000.0).max(counters.get("tokio_virtual_ms").copied().unwrap_or(0) as f64 / 1000.0),
             "faults_fired": fault_counts,
             "reached": reached,
             "counters": other,
